@@ -197,11 +197,11 @@ def run(ctx, eng):
            node=fi.node)
     # ---- (b) local_flow_control_window
     f2 = eng.m.func(H + 'local_flow_control_window')
-    ok = False
+    ok = cm.Every()
     for p in cm.normal_paths(eng.I.run(f2)):
         v = p.value
-        if v[0] == 'call' and v[1] == 'min' and len(v[2]) == 2:
-            names = set()
+        names = set()
+        if v and v[0] == 'call' and v[1] == 'min' and len(v[2]) == 2:
             for a in v[2]:
                 if cm.attr_chain(a) == 'self.outbound_flow_control_window':
                     names.add('conn')
@@ -210,7 +210,7 @@ def run(ctx, eng):
                         a[1][1].endswith('_get_stream_by_id') and \
                         a[1][2][-1] == ('p', 'stream_id'):
                     names.add('stream')
-            ok = names == {'conn', 'stream'}
+        ok(names == {'conn', 'stream'})
     ctx.ob('FLOW.min', f2.qual, 'minimum of the two windows', ok,
            'min(connection window, window of _get_stream_by_id(stream_id))',
            node=f2.node)
@@ -236,12 +236,12 @@ def run(ctx, eng):
     ctx.ob('FLOW.init', f3.qual, 'connection window starts at the peer '
            'default', ok, 'remote_settings.initial_window_size', node=f3.node)
     f4 = eng.m.func(H + '_begin_new_stream')
-    ok = False
+    ok = cm.Every()
     for p in cm.normal_paths(eng.I.run(f4)):
         for e in p.events:
             if e.kind == 'new' and e.cls == 'H2Stream':
-                ok = cm.attr_chain(e.kwargs.get('outbound_window_size')) == \
-                    'self.remote_settings.initial_window_size'
+                ok(cm.attr_chain(e.kwargs.get('outbound_window_size')) ==
+                   'self.remote_settings.initial_window_size')
     ctx.ob('FLOW.init', f4.qual, 'stream window starts at the peer\'s '
            'current initial size', ok,
            'outbound_window_size=remote_settings.initial_window_size',
@@ -354,16 +354,16 @@ def check_settings_delta(ctx, eng):
            'moves by new - old (possibly below zero), through the overflow '
            'guard', node=f8.node)
     f9 = eng.m.func(H + '_acknowledge_settings')
-    ok = False
+    ok = cm.Every()
     for p in cm.normal_paths(eng.I.run(f9)):
         cs = cm.calls_to(p, '_flow_control_change_from_settings')
         if cs:
             a = [cm.show0(x) for x in cs[0].args]
-            ok = a == ['MutableMapping... '] or (
-                len(a) == 2 and a[0].endswith('.original_value') and
-                a[1].endswith('.new_value'))
             from .c11 import code_facts
-            ok = ok and code_facts(p).get('INITIAL_WINDOW_SIZE') is True
+            ok((a == ['MutableMapping... '] or (
+                len(a) == 2 and a[0].endswith('.original_value') and
+                a[1].endswith('.new_value'))) and
+               code_facts(p).get('INITIAL_WINDOW_SIZE') is True)
     ctx.ob('FLOW.delta', f9.qual, 'delta from the acknowledged change', ok,
            '_flow_control_change_from_settings(original_value, new_value) of '
            'the INITIAL_WINDOW_SIZE change', node=f9.node)
